@@ -765,7 +765,7 @@ def wap_prefix_boundary(ctx, rep, rule="R05f"):
                 key=f"{rule}|{path}")
 
 
-def rendered_targets(ctx, P, selector, etype):
+def rendered_targets(ctx, P, selector, etype, host=None, port=None):
     """The link target(s) protocol class P renders for a local entry (no host, no port) with this selector and type:
     renderobjinfo() evaluated by the walker with the entry modelled by its getters.  None = not determined."""
     import html as _html
@@ -778,22 +778,30 @@ def rendered_targets(ctx, P, selector, etype):
     if ro is None or len(ro.params) < 2:
         return None
     eparam = ro.params[1]
-    vals = {"getselector": selector, "gettype": etype, "getname": "Name", "gethost": None, "getport": None, "getmimetype": "text/plain",
+    vals = {"getselector": selector, "gettype": etype, "getname": "Name", "gethost": host, "getport": port, "getmimetype": "text/plain",
             "getnum": 0, "getsize": None, "getlanguage": None}
 
     def cv(call, target, st):
         f = call.func
         if isinstance(f, ast.Attribute) and isinstance(f.value, ast.Name) and f.attr in vals:
             return Const(vals[f.attr])
+        if isinstance(f, ast.Attribute) and isinstance(f.value, ast.Name) and f.attr == "geturl":
+            a_ = holder["w"].cur_args or []
+            dh = a_[0].value if a_ and a_[0].kind == "const" else "this.example"
+            dp = a_[1].value if len(a_) > 1 and a_[1].kind == "const" else 70
+            return Const(f"gopher://{host or dh}:{port or dp}/{etype}{selector}")
         if isinstance(f, ast.Attribute) and f.attr == "getimgtag":
             return Const("")
         if isinstance(f, ast.Attribute) and f.attr == "has_option" and "config" in norm(f.value):
             return Const(False)
         return None
 
-    facts = {"self.waptop": Const("/WAPTOP"), "self.accesskeyidx": Const(0), "self.postfieldidx": Const(0)}
+    holder = {}
+    facts = {"self.waptop": Const("/WAPTOP"), "self.accesskeyidx": Const(0), "self.postfieldidx": Const(0), "self.server.server_name": Const("this.example"),
+             "self.server.server_port": Const(70)}
     w = Walker(prog, ctx.resolver, assumptions=facts, sticky={"self.waptop"}, call_value=cv, exact_loops=True, unroll=4,
                inline=lambda fn, t, d: d < 3 and fn.name != "getimgtag" and (t.bound_cls is not None or (fn.cls is None and ".protocols" in fn.module.name)))
+    holder["w"] = w
     outs = set()
     try:
         paths = w.run(ro, P, facts=dict(facts))
